@@ -12,7 +12,11 @@ func (r *Run) callBuiltin(b *ssa.Builtin, args []Value, site ssa.Instruction) Va
 		switch x := args[0].(type) {
 		case Str:
 			if x.Atom != nil {
-				panic(unsupported("len of atom string"))
+				where := "?"
+				if site != nil {
+					where = site.Parent().String()
+				}
+				panic(unsupported("len of atom string in %s", where))
 			}
 			return BVConst(64, uint64(len(x.B)))
 		case Slice:
